@@ -40,6 +40,9 @@ CHECKS = {
  "C06": dict(cat="other", engine="mirsym", tech="bounded symbolic execution of rustc MIR with z3 validity queries against the documented filter semantics; CLI replay",
              text="z3 decides for all option values and all 64-bit counts that matches/matches_strictly/missing_count/redundant_count and GroupConfig::group_filter implement the documented replication filter and defaults, and that isolate roots are canonicalised like scanned paths. Hard-link / symlink sub-grouping (IndexMap) is not encodable and outside the claim.",
              note="Trusted: MIR front end + summaries, z3. Partial claim: the sub-group count is a free symbol.", ref="DESIGN.md §3 C06"),
+ "C07": dict(cat="other", engine="mirsym", tech="bounded symbolic execution of rustc MIR (make_args closure sequences x Drop impls, open flags, dry-run branch) with z3; CLI replay with tree snapshots",
+             text="z3/path enumeration over Transform::make_args (argument closure invoked for [], [IN], [OUT], [IN,OUT], [OUT,IN]; copy and in_place symbolic) composed with the Drop impls of Input/Output: every path deleted, created or written derives from the per-run temp dir and copy targets are fresh random names; prepare_input_file copies; open_noatime is read-only; run_dedupe prints iff --dry-run; cache under dirs::cache_dir(). Partial: what the user's transform does and sled's files are outside.",
+             note="Trusted: MIR front end + summaries, contract of parse_command (one closure call per $VAR), z3.", ref="DESIGN.md §3 C07"),
  "C08": dict(cat="other", engine="mirsym", tech="bounded symbolic execution of rustc MIR (list model of partition, sort_by_priority table, header merge) with z3 validity queries; native partition/sort replays",
              text="z3 decides on the symbolic execution of dedupe::partition (2-3 files, every sub-group distribution, pattern matches as free predicates) that exactly the unprotected sub-groups ranked last are dropped so that n = max(1, rf_over or 1) survive and sub-groups stay whole; each Priority variant's key/direction, the last-to-first application with a stable sort, and run_dedupe's inheritance of rf_over / match_links / size-check / isolate roots are checked on their MIR. Hard-link sub-grouping itself is outside (IndexMap).",
              note="Trusted: MIR front end + list summaries, z3, stability of std's sort_by_key; glob matching is C16.", ref="DESIGN.md §3 C08"),
